@@ -2,7 +2,7 @@
 import hashlib, os
 
 SEARCH_SEEDS = 4
-HOOK_COMMITS = ['f890e23', 'e4a796c', '33dcc81', '457ac67']
+HOOK_COMMITS = ['f890e23', 'e4a796c', '33dcc81', '457ac67', '08a5caf', '0b3940c', '1586385', 'ca7e702']
 TIMEOUT = {'quick': 1500, 'thorough': 7200}
 
 PRIMES = [4294967291, 4294967279, 4294967231, 4294967197, 4294967189, 4294967161, 4294967143, 4294967111]
@@ -266,5 +266,21 @@ PROPS = {
                     'lru_refines: the pointer structure (HashMap + intrusive list) is tied to the list model by the correspondence check on op sequences, not by a proof about the unsafe code'],
         'level_text': 'Lean theorems about executable models of the three structures: the LRU model is a map (find after insert/lookup/remove), evicts only a suffix of the recency list, keeps size = sum of entry sizes, ends an evicting insert within capacity and exceeds capacity only by insert_no_evict sizes since the last insert (all op sequences); the wait-list model keeps its invariant for every link/unlink sequence incl. a full ring, has exactly one head (the oldest live guard) and hands the head to the next oldest on unlink; the coalescing-queue model (one step per critical section, every interleaving, arbitrary core answers) gives the core each input exactly once in link order, returns each call its own output and never reaches a panic; the wake-up model (two mutexes, spurious wake-ups) is never stuck, every run of caller/leader steps in it is finite and one is enabled while a caller is linked (so all calls return when arrivals stop), and the mutants without the notify_head of the leader or of the followers do get stuck; slots of the wait list are reused only after the head passed them. Tied to the code by: exact comparison of result / size / full recency order after every LRU op; head / tail / linked flags after every wait-list op on the real 65536-slot ring incl. a blocked 65537th link and index wrap-around; and replay of every recorded multi-thread run of the real queue (real event order, stamped from harness-defined core / iterator / Clone code) through the model step function, every event required to be enabled.',
         'level_note': 'Trusted: Lean kernel; axioms propext, Classical.choice, Quot.sound; hand-written models; correspondence is agreement on generated cases and on the thread schedules that happened to occur; link order inside do_work is inferred (no hook), parking / notification events are not observed (only their effect: nobody stuck within 40 s). Liveness is proved as termination + enabledness of caller/leader steps without new arrivals; fairness and unbounded arrivals are assumptions (partial).',
+    },
+    'C17': {
+        'trusted': ['event order of a controlled run = order of the hook log: worker threads park in skipfree::verif::point / listfree::verif::point before every atomic access and the harness releases one at a time (cfg(rescrv_blue_verif) hooks, add-only, observers except the parking itself and the forced tower heights)',
+                    'event order of a free-running run = a sequentially consistent order computed by the harness from the logged accesses (per-location write chains, reads-from, program order; topological sort); the Lean driver re-validates every access of that order against the model, so a wrong order shows as a disagreement, never as a pass',
+                    'node identity: addresses are renamed to allocation order; tower heights are supplied by the harness through verif::force_heights (the distribution of random_height with the source branching factor, the top of the tower over-weighted)',
+                    'node lifetime is observed through the allocation registry of the hooks in a child process (thorough: also under valgrind memcheck)'],
+        'assumptions': ['sequentially consistent interleaving of the atomic accesses of different threads: the model has one global order of loads, stores and CASes; the code uses Acquire loads, Release stores and SeqCst CASes, and that these give the assumed behaviour on the target (weak memory) is outside the model and not proved - on x86-64 the harness has never seen a log without a sequentially consistent order',
+                        'distinct keys: an insert begins with a key that is neither linked nor being inserted (Reach.insert / insertOk); the code asserts this and panics otherwise (observed in the sequential stream, outside the property)',
+                        'memory that has not been released stays valid and Box::leak/Box::from_raw behave as allocation/release; keys are totally ordered (Nat in the model, u64 in the harness)',
+                        'the search of find_greater_or_equal / find_less_than / find_last through the upper levels and every load of it are modelled; values are not (the value travels with its node)'],
+        'partial': ['weak memory: every theorem is about sequentially consistent interleavings (see assumptions); this is why the claim is partial',
+                    'iterator_moves_* are stated at the last load of each search (the answer is the nearest linked key with respect to the keys linked at the time of that load, a concurrent insert may or may not be seen); that each search reaches its last load (termination under concurrent inserts) is not proved - lock-freedom, not wait-freedom',
+                    'iterator_keeps_nodes_alive is a theorem about the ownership model of the repaired code (Blue.SkipLife: nodes are released with the last of list handle and iterators); that the unsafe code implements it is by correspondence (allocation registry, valgrind) - finding D-4 on the unrepaired code',
+                    'listfree: the reader side (iter/next) is validated against the model by the driver (iterNext) and covered by walk_chain from any published pointer; there is no separate small-step reader in the proved transition system'],
+        'level_text': 'Lean theorems about an executable small-step model of the code (one step per atomic access of insert: search loads with recorded predecessors/successors, allocation, per level store, CAS, re-advance after a failed CAS; and of the iterator: find_greater_or_equal, find_less_than, find_last, next), for every interleaving of any number of inserting and reading threads with distinct keys: every level is a strictly sorted chain, level l+1 is a sub-chain of level l, level 0 holds exactly the keys whose level-0 CAS succeeded, a returned insert is linked and stays linked, no assertion of the code fires, and seek/next/prev end on the nearest linked key in their direction (at the time of their last load); for the prepend-only list the chain is exactly the pushed data, newest first. Correspondence: the real crates run under controlled scheduling (every interleaving of the small scenarios, seeded and preemption-bounded schedules of the larger ones) and free-running, and every recorded access is validated as the next step of the model with the same outcome. PARTIAL: sequentially consistent atomics are assumed.',
+        'level_note': 'Trusted: Lean kernel; axioms propext, Classical.choice, Quot.sound; hand-written models (Blue.SkipML, Blue.SkipList, Blue.ListFree, Blue.SkipLife); the cfg(rescrv_blue_verif) hooks of skipfree/listfree; the harness linearisation of free-running logs is untrusted (re-validated by the driver). Not covered: weak-memory behaviours, termination of a search under unbounded concurrent inserts, generic K/V other than u64.',
     },
 }
